@@ -185,6 +185,15 @@ func (r *Report) condHolds(e TableEntry, o *Obligation) bool {
 	if e.Cond == "" {
 		return true
 	}
+	if strings.HasPrefix(e.Cond, "detail-contains:") {
+		// the review is bound to what the rule reported (e.g. the text of the comparator it accepted)
+		want := strings.TrimPrefix(e.Cond, "detail-contains:")
+		if strings.Contains(o.Detail, want) {
+			return true
+		}
+		o.Detail += " [the reviewed entry was written for a construct reported as \"" + want + "\"; the construct has changed and must be reviewed again]"
+		return false
+	}
 	f := r.Conds[e.Cond]
 	if f == nil {
 		o.Detail += " [reviewed entry needs side condition " + e.Cond + ", which this property does not establish]"
